@@ -974,10 +974,15 @@ Section Inv.
 End Inv.
 
 (* ---------- packaged results ---------- *)
-Lemma mon_C10_holds c tb atts : mon_C10 c atts (he_obs c tb atts) = true.
+(* the four clauses of mon_C10 about started attempts; the liveness clause s_hang and the full
+   mon_C10_holds are in he/ProofsPace.v (they need the pacing invariant) *)
+Definition mon_C10_core (c : cfg) (atts : list attempt) (o : obs) : bool :=
+  s_ok_sound c atts o && s_complete c atts o && s_err atts o && s_timeout c o.
+
+Lemma mon_C10_core_holds c tb atts : mon_C10_core c atts (he_obs c tb atts) = true.
 Proof.
   destruct (he_obs_final c atts tb) as (res & td & lg & E & HF). rewrite E.
-  unfold mon_C10.
+  unfold mon_C10_core.
   rewrite (clause_ok_sound c atts res td lg HF), (clause_complete c atts res td lg HF),
           (clause_err c atts res td lg HF), (clause_timeout c atts res td lg HF). reflexivity.
 Qed.
